@@ -246,18 +246,77 @@ def stale_cleanup(F, R):
     R.ob('DOM', 'DOM::%s::in-process-cleanup-section' % fnkey(f), len(cl) == 1, 'IN_CLEANUP_SECTION.swap(true) guards the body (scope guard on_init)', cl[0].file + ':%s' % cl[0].line if cl else f.file, f)
 
 
+def tracker(F, R):
+    """In-process tracker discipline (F12): while a process holds a file lock of a monitored path, the tracker map has an entry for that path,
+    so that a same-process state() never opens (and, on close, unlocks) a second descriptor of the locked file."""
+    ds = F.find_fns(r'^<' + re.escape(PS) + r"TrackerGuard<.*> as core::ops::drop::Drop>::drop$")
+    if len(ds) != 1:
+        R.missing('Drop for TrackerGuard')
+        return
+    d = ds[0]
+    loads = atomics(d, r'has_ownership', 'load')
+    rms = d.calls(r'BTreeMap::<.*>::remove$')
+    R.floor('tracker removals in TrackerGuard::drop', len(rms), 1)
+    for r_ in rms:
+        ok = False
+        for l in loads:
+            for b in range(len(d.blocks)):
+                t = d.blocks[b]['t']
+                if t[0] == 'switch':
+                    p = d.prov_operand(t[1])
+                    if p.root[0] == 'call' and p.root[1].key() == l.site.key():
+                        tt, ff = lib.bool_switch_arms(d, b)
+                        if d.edge_dominates(b, tt, r_.b):
+                            ok = True
+        R.ob('ONLY-UNDER', 'ONLY-UNDER::%s::entry-removed-only-by-owner' % fnkey(d), ok, 'the guard removes the tracker entry only when has_ownership is set: a released guard must leave the entry (otherwise the cleaner of a foreign process has no entry and a same-process state() unlocks the owner lock file)', r_.where, d)
+    f = F.fn(PS + 'ProcessCleaner::new')
+    nc = f.calls(r'TrackerGuard::<.*>::new_cleaning_up$|TrackerGuard::new_cleaning_up$')
+    tl = f.calls(r'FileDescriptorManagement::try_lock$')
+    R.exact('new_cleaning_up calls in ProcessCleaner::new', len(nc), 1)
+    reach = set(f.reachable(0))
+    for b in range(len(f.blocks)):
+        t = f.blocks[b]['t']
+        if t[0] == 'drop' and b in reach and 'process_state::TrackerGuard<' in str(t[-2] if isinstance(t[-2], str) else t):
+            ds_ = f.term_site(b)
+            pth = f.exists_path(ds_, tl, []) if nc and f.dominates(nc[0], ds_) else None
+            R.ob('NO-PATH', 'NO-PATH::%s::tracker-guard-alive-until-owner-lock' % fnkey(f), pth is None, 'the TrackerGuard is not dropped on a path that still reaches the owner try_lock (a dropped guard can no longer undo / commit the entry)%s' % ('' if pth is None else ' -- %s' % pth), ds_.where, f)
+    # the success path commits CleaningUp through a TrackerGuard method that also releases the guard's ownership
+    commits = []
+    for c in f.calls(r'process_state::TrackerGuard::<.*>::\w+$|process_state::TrackerGuard::\w+$'):
+        g = F.fn_opt(c.callee)
+        if g is None:
+            continue
+        if lib.agg_sites(g, r'process_state::ProcessState$', 'CleaningUp') and g.calls(r'TrackerGuard::<.*>::release_ownership$|TrackerGuard::release_ownership$'):
+            commits.append((c, g))
+    R.ob('DOM', 'DOM::%s::CleaningUp-committed<Ok' % fnkey(f), bool(commits) and all(any(f.dominates(c, e) for c, _ in commits) for e in f.ok_exit_sites()) and all(any(f.dominates(t_, c) for t_ in tl) for c, _ in commits),
+         'every Ok exit is dominated by a commit of the CleaningUp entry (%s) which follows the owner try_lock' % [core.short(c.callee) for c, _ in commits], commits[0][0].where if commits else f.file, f)
+    for c, g in commits:
+        rel = g.calls(r'release_ownership$')
+        pth = g.exists_path(core.Site(g, 0, -2, ['entry']), g.ret_sites(), rel)
+        R.ob('MUST-CALL', 'MUST-CALL::%s::release_ownership' % fnkey(g), pth is None, 'the commit releases the guard\'s ownership on every path (so that the guard\'s drop keeps the entry)%s' % ('' if pth is None else ' -- %s' % pth), '%s:%s' % (g.file, g.line), g)
+    # a path unknown to the tracker gets an entry
+    for n in nc:
+        g = F.fn_opt(n.callee)
+        if g is None:
+            R.missing('body of TrackerGuard::new_cleaning_up')
+            continue
+        ins = g.calls(r'Entry::<.*>::or_insert(_with)?$|BTreeMap::<.*>::insert$')
+        R.ob('MUST-CALL', 'MUST-CALL::%s::inserts-entry-for-unknown-path' % fnkey(g), len(ins) >= 1, 'new_cleaning_up inserts a tracker entry when none exists (%d insertion site(s))' % len(ins), ins[0].where if ins else g.file, g)
+
+
 def check(F, R, tier):
     guard_create(F, R)
     state_files(F, R)
     monitor_state(F, R)
     cleaner_new(F, R)
+    tracker(F, R)
     stale_cleanup(F, R)
 
 
 LEVEL_TEXT = ("Decides on all CFG paths of the process-state code: lock-before-publish in guard creation, INIT permissions, context file last, "
               "own-process check before opening the state file, Dead only from the lock state, ownership only for the winner of the owner lock, "
               "cleaner abandoned on every error exit. Necessary conditions of sound verdicts / exclusive cleanup; kernel interleavings are not decided.")
-LEVEL_NOTE = "Trusted: rustc MIR; the file-role naming via debug-info variable names (state_file/owner_lock_file/context_file). Not decided: kernel lock behaviour."
+LEVEL_NOTE = "Trusted: rustc MIR; the file-role identification by path provenance (generate_*_path / *_path fields). Not decided: kernel lock behaviour."
 TECHNIQUE = "static analysis: MIR dominance, only-under-arm and no-error-after-effect path rules over the process-state protocol"
 
 THOROUGH_UNIVERSES = ['dev_permissions']
